@@ -3208,7 +3208,12 @@ parsec_insert_dtd_task(parsec_task_t *__this_task)
                  * operation on the data as following: R, .... R, W. This takes care of those
                  * cases.
                  */
-                if( last_user.task == this_task ) {
+                /* The last user is not alive: its pointer may be the one of a completed
+                 * task whose object has been recycled into this_task. It is this very task
+                 * only if one of its earlier flows uses this tile. */
+                if( (last_user.task == this_task) &&
+                    (last_user.flow_index < flow_index) &&
+                    ((FLOW_OF(this_task, last_user.flow_index))->tile == tile) ) {
                     if((last_user.op_type & PARSEC_GET_OP_TYPE) == PARSEC_INPUT ) {
                         if( this_task->super.data[last_user.flow_index].data_in != NULL) {
 /* #if defined(PARSEC_HAVE_DEV_CUDA_SUPPORT) */
